@@ -263,6 +263,19 @@ func inventoryFile(out map[string]string, fset *token.FileSet, repo, path string
 					bodyHash = hashText(abstractText(src[fset.Position(fd.Body.Pos()).Offset:fset.Position(fd.Body.End()).Offset]))
 				}
 				out[Key(rel, recvName(fd), fd.Name.Name)] = val + "\t" + absSig + "\t" + bodyHash
+				// local closures bound to a name: candidates for inlining (see oneRound)
+				if fd.Body != nil {
+					ast.Inspect(fd.Body, func(n ast.Node) bool {
+						if as, ok := n.(*ast.AssignStmt); ok && as.Tok == token.DEFINE && len(as.Lhs) == 1 && len(as.Rhs) == 1 {
+							if id, ok1 := as.Lhs[0].(*ast.Ident); ok1 && id.Name != "_" {
+								if _, ok2 := as.Rhs[0].(*ast.FuncLit); ok2 {
+									out["closure:"+Key(rel, recvName(fd), fd.Name.Name)+"$"+id.Name] = "1"
+								}
+							}
+						}
+						return true
+					})
+				}
 			}
 		}
 		return nil
@@ -367,8 +380,14 @@ func Run(repo string, env []string, base map[string][]byte, baseline map[string]
 			return cur, rep
 		}
 		newKeys := map[string]bool{}
+		closures := 0
 		for k := range inv {
 			if strings.HasPrefix(k, "type:") || strings.HasPrefix(k, "var:") {
+				continue
+			}
+			if strings.HasPrefix(k, "closure:") {
+				closures++
+				delete(inv, k) // not a function key: keep it away from rename detection
 				continue
 			}
 			if _, ok := baseline[k]; !ok {
@@ -411,10 +430,10 @@ func Run(repo string, env []string, base map[string][]byte, baseline map[string]
 			}
 		}
 		models := newModelUses(inv, baseline)
-		if len(newKeys) == 0 && len(models) == 0 {
+		if len(newKeys) == 0 && len(models) == 0 && closures == 0 {
 			return cur, rep
 		}
-		next, did, kept, err := oneRound(repo, env, cur, newKeys, models)
+		next, did, kept, err := oneRound(repo, env, cur, newKeys, models, rep.Kept)
 		for k, why := range kept {
 			rep.Kept[k] = why
 		}
@@ -479,10 +498,11 @@ type callSite struct {
 
 type helper struct {
 	key  string
-	decl *ast.FuncDecl
-	obj  *types.Func
+	decl *ast.FuncDecl // for a local closure: a synthetic declaration sharing the literal's Type and Body nodes
+	obj  types.Object  // *types.Func, or the *types.Var a closure is bound to
 	file *ast.File
 	pk   *packages.Package
+	def  ast.Stmt // closure helpers: the `name := func(...) {...}` statement, removed once every call is inlined
 }
 
 func funcID(fn *types.Func) string {
@@ -492,7 +512,7 @@ func funcID(fn *types.Func) string {
 	return fn.Pkg().Path() + "::" + fn.FullName()
 }
 
-func oneRound(repo string, env []string, overlay map[string][]byte, newKeys map[string]bool, models map[string]map[string]int) (map[string][]byte, []string, map[string]string, error) {
+func oneRound(repo string, env []string, overlay map[string][]byte, newKeys map[string]bool, models map[string]map[string]int, skip map[string]string) (map[string][]byte, []string, map[string]string, error) {
 	kept := map[string]string{}
 	pkgs, err := loadTyped(repo, env, overlay)
 	if err != nil {
@@ -640,9 +660,59 @@ func oneRound(repo string, env []string, overlay map[string][]byte, newKeys map[
 				if obj == nil {
 					continue
 				}
-				h := &helper{k, fd, obj, f, pk}
+				h := &helper{key: k, decl: fd, obj: obj, file: f, pk: pk}
 				helpers = append(helpers, h)
 				byID[funcID(obj)] = h
+			}
+		}
+	}
+	// local closures bound once to a name (`flush := func() bool {…}`) and only ever called: the same treatment,
+	// whether or not the reference tree had them (its own named closures are recursive and stay)
+	byVar := map[*types.Var]*helper{}
+	for _, pk := range pkgs {
+		if len(pk.Errors) > 0 || pk.TypesInfo == nil {
+			continue
+		}
+		for _, f := range pk.Syntax {
+			name := fileOf[f]
+			if name == "" || !strings.HasPrefix(name, repo) || strings.HasSuffix(name, "_test.go") || srcOf[f] == nil {
+				continue
+			}
+			rel, _ := filepath.Rel(repo, filepath.Dir(name))
+			for _, d := range f.Decls {
+				fd, ok := d.(*ast.FuncDecl)
+				if !ok || fd.Body == nil {
+					continue
+				}
+				ast.Inspect(fd.Body, func(n ast.Node) bool {
+					blk, ok := n.(*ast.BlockStmt)
+					if !ok {
+						return true
+					}
+					for _, st := range blk.List {
+						as, ok := st.(*ast.AssignStmt)
+						if !ok || as.Tok != token.DEFINE || len(as.Lhs) != 1 || len(as.Rhs) != 1 {
+							continue
+						}
+						id, ok1 := as.Lhs[0].(*ast.Ident)
+						lit, ok2 := as.Rhs[0].(*ast.FuncLit)
+						if !ok1 || !ok2 || id.Name == "_" {
+							continue
+						}
+						v, _ := pk.TypesInfo.Defs[id].(*types.Var)
+						if v == nil {
+							continue
+						}
+						k := Key(rel, recvName(fd), fmt.Sprintf("%s$%s@%d", fd.Name.Name, id.Name, fset.Position(id.Pos()).Line))
+					if _, given := skip[k]; given {
+						continue
+					}
+						h := &helper{key: k, decl: &ast.FuncDecl{Name: id, Type: lit.Type, Body: lit.Body}, obj: v, file: f, pk: pk, def: as}
+						helpers = append(helpers, h)
+						byVar[v] = h
+					}
+					return true
+				})
 			}
 		}
 	}
@@ -650,11 +720,13 @@ func oneRound(repo string, env []string, overlay map[string][]byte, newKeys map[
 		return out, nil, kept, nil
 	}
 	helperOf := func(o types.Object) *helper {
-		fn, ok := o.(*types.Func)
-		if !ok {
-			return nil
+		switch x := o.(type) {
+		case *types.Func:
+			return byID[funcID(x)]
+		case *types.Var:
+			return byVar[x]
 		}
-		return byID[funcID(fn)]
+		return nil
 	}
 	// call sites (with ancestor stacks) and other uses, program-wide
 	sites := map[*helper][]*callSite{}
@@ -806,6 +878,12 @@ func oneRound(repo string, env []string, overlay map[string][]byte, newKeys map[
 			did = append(did, h.key+"#partial")
 			continue
 		}
+		if h.def != nil {
+			// the closure's defining statement goes (its name would be unused)
+			edits[h.file] = append(edits[h.file], edit{fset.Position(h.def.Pos()).Offset, fset.Position(h.def.End()).Offset, ""})
+			did = append(did, h.key)
+			continue
+		}
 		// remove the declaration (with its doc comment)
 		start := h.decl.Pos()
 		if h.decl.Doc != nil {
@@ -891,7 +969,7 @@ func applyEdits(src []byte, es []edit) ([]byte, error) {
 }
 
 // inlinable: properties of the helper itself.
-func inlinable(pk *packages.Package, fd *ast.FuncDecl, obj *types.Func) string {
+func inlinable(pk *packages.Package, fd *ast.FuncDecl, obj types.Object) string {
 	sig := obj.Type().(*types.Signature)
 	if sig.TypeParams() != nil || sig.RecvTypeParams() != nil {
 		return "generic"
@@ -1532,7 +1610,7 @@ func qualifierFor(pk *packages.Package, f *ast.File, add map[string]string) (typ
 
 // captureCheck: every identifier of the helper's body that refers to something declared outside the helper must
 // resolve to the same object at the call site.
-func captureCheck(pk *packages.Package, hd *ast.FuncDecl, hobj *types.Func, cs *callSite) string {
+func captureCheck(pk *packages.Package, hd *ast.FuncDecl, hobj types.Object, cs *callSite) string {
 	info := pk.TypesInfo
 	cross := pk.Types.Path() != cs.pk.Types.Path()
 	var scope *types.Scope
